@@ -25,7 +25,7 @@ Default(f) == CASE f \in {"sm2", "sm2opaque"} -> "SM2WithSM3" [] f = "rsa" -> "S
               [] f = "ecdsa521" -> "ECDSAWithSHA512" [] f = "ecdsa224" -> "ECDSAWithSHA256"
 Kinds == {"cert", "csr", "crl", "revlist"}
 \* template classes for certificates (field groups that must survive the round trip)
-Classes == {"plain", "serial20", "names", "usages", "ekus", "ca_pathlen0", "ca_pathlen2", "sans", "constraints", "policies", "extraext", "validity_edges",
+Classes == {"plain", "serial20", "names", "usages", "ekus", "ca_pathlen0", "ca_pathlen2", "sans", "constraints", "constraints_extra_policies", "policies", "extraext", "validity_edges",
             \* the certified key has a coordinate with a leading zero byte (the point is written with fixed-width coordinates)
             "subjkey_shortx", "subjkey_shorty",
             \* interactions: every field group at once; an extra extension that replaces a generated one (same OID) next to
